@@ -427,6 +427,15 @@ func (vc *VC) load(st *State, p Val, T types.Type) Val {
 		return v
 	case *types.Array:
 		k := kindOfType(u.Elem())
+		if isObjectType(u.Elem()) && u.Len() <= 16 {
+			// a short array of structs as a value: its elements, loaded one by one (Fs);
+			// only indexing (ssa.Index) is supported on it
+			v := Val{K: KArr, T: T}
+			for i := int64(0); i < u.Len(); i++ {
+				v.Fs = append(v.Fs, vc.load(st, vc.elemPtr(p.S, itoa(i), u.Elem()), u.Elem()))
+			}
+			return v
+		}
 		if isObjectType(u.Elem()) || k == KSlice || k == KIface {
 			panic(unsupported("array value of composite elements"))
 		}
